@@ -184,7 +184,8 @@ func Main(args []string) {
 			"(c) reduced space: real populations of 6 bugs (three sharing 3 leading hex characters, one sharing 2, one sharing 1, one sharing none) with 1..5 comments (one bug holds comments whose operation ids share exactly 1, 2 and 3 leading characters) and 3 identities (sharing 2 and 1 leading characters), found by mining with the deterministic nonce seam; thorough runs more such populations",
 			"a prefix matched by several comments (of one bug or of several) does not identify a single comment: any error is accepted, a successful resolution is a violation",
 			"the error type for an unknown comment is not fixed by the statement (any error accepted)",
-			"(d) growing populations: one long-lived RepoCache per run; a pool of 3 (thorough 4) real bugs, and separately of 3 (4) real identities, with mined shared prefixes (two share 3 leading characters, the others 2) arrives by Bugs().NewRaw / Identities().NewRaw (ids reproduced through the nonce seam) and by pull (Fetch+MergeAll from a remote holding exactly that entity) and leaves by Remove; all event sequences of 3 (4) events x every set of positions after which everything is resolved (the last always); the reference is 0/1/many over the population at that moment",
+			"(d) growing populations: one long-lived RepoCache per run; a pool of 3 (thorough 4) real bugs, and separately of 3 (4) real identities, with mined shared prefixes (two share 3 leading characters, the others 2) arrives by Bugs().NewRaw / Identities().NewRaw (ids reproduced through the nonce seam) and by pull (Fetch+MergeAll from a remote holding exactly that entity) and leaves by Remove; all event sequences of 3 (4) events x every set of positions after which everything is resolved (the last always); the reference is 0/1/many over the population at that moment; for bugs the events include editing a comment of a present bug through the cache (create comment first, then the last comment; at most twice per bug), after which everything is also resolved through a reopened cache",
+			"a comment is identified by the operation that CREATED it: its true combined id is CombineIds(bug id, id of the create / add-comment operation), whatever edits follow; in the real populations 7 edits (create comment and later comments, once and twice, by the author and by others) are made through the cache, each addressed by the true combined id; the edited bug's comments are re-resolved after every edit, everything after the last edit and once more through a reopened cache; a cache that does not find a comment to edit under its true combined id is a violation",
 			"command layer (_select.Resolve as commands/bug calls it, on the real populations, every selection state x every prefix): a first argument that is some bug's prefix is resolved like ResolvePrefix whatever is selected (one -> that bug and the remaining arguments, several -> multiple-match error listing exactly them); an argument that is no bug's prefix, or no argument, falls back to the selection as the function documents (selected bug with the arguments untouched; nothing selected -> no-valid-id error; selection of a missing bug -> no-valid-id error and the selection cleared); the empty string as argument is a prefix like any other",
 		},
 		WallS: time.Since(start).Seconds(), Violations: rep.Viol, Known: rep.KnownSeen()}
